@@ -108,7 +108,7 @@ Ltac use_r1 HR :=
 Definition quiet_action (a : action) : bool :=
   match a with
   | ASub _ _ | ARetry _ | AWaitDone _ | AWaitCtx _ | APublish _ | ABook _ | AInsert _ | AUnsub _ | AUnsubSend _
-  | ARemove _ | ARLRemove _ | ARemoveConn _ | UpAccept _ | UpReject _ | UpAck _
+  | ARemove _ | ARLRemove _ | ARemoveConn _ | UpAccept _ | UpReject _ | UpAck _ _
   | SseSub _ | SseOk _ | SseFail _ | SseMsg _ _ | SseDrop _ => true
   | _ => false
   end.
@@ -235,9 +235,9 @@ Proof.
   - reflexivity.
 Qed.
 
-Lemma rel_upack : forall s d r s' e, InvD s -> NoConnYet s -> Rel s r -> step s (UpAck d) = Some (s', e) -> Rel s' r.
+Lemma rel_upack : forall s d p r s' e, InvD s -> NoConnYet s -> Rel s r -> step s (UpAck d p) = Some (s', e) -> Rel s' r.
 Proof.
-  intros s d r s' e HD HN HR H. inv_step H.
+  intros s d p r s' e HD HN HR H. inv_step H.
   assert (Hn : cns s d = None) by (eapply HN; eauto; congruence).
   apply rel_set_pc; [|intros; discriminate].
   drel HR. constructor; auto; simp.
@@ -440,7 +440,7 @@ Proof.
 Qed.
 
 Lemma kind_eqb_refl : forall k, kind_eqb k k = true.
-Proof. destruct k; simpl; auto. apply N.eqb_refl. Qed.
+Proof. destruct k; simpl; auto; [apply N.eqb_refl | apply Bool.eqb_reflx]. Qed.
 
 Lemma find_reg_some : forall c w i l, In (c, w, i) l -> exists i', find_reg c w l = Some i'.
 Proof.
@@ -453,17 +453,27 @@ Lemma rel_exp_soft : forall s r e, Rel s r -> (match e with Some (_, _, true, _,
   Rel s (set_exp r e).
 Proof. intros s r e HR He. drel HR. constructor; simpl; auto. Qed.
 
-Lemma rel_upmsg : forall s r c w k s' evs, Inv s -> Rel s r -> step s (UpMsg c w k) = Some (s', evs) ->
+Lemma soft_clr : forall r, soft (clr r).
+Proof. intros; unfold soft; simpl; auto. Qed.
+
+Lemma rel_upmsg : forall s r c f s' evs, Inv s -> Rel s r -> step s (UpMsg c f) = Some (s', evs) ->
   exists r', scan r evs = Some r' /\ Rel s' r'.
 Proof.
-  intros s r c w k s' evs HI HR H. simpl in H.
-  destruct (cns s c) as [x|] eqn:Hc; [|discriminate].
-  destruct (c_rl x) eqn:Hrl; try discriminate.
-  destruct (c_closed x) eqn:Hcl; try discriminate.
-  destruct (c_dead x) eqn:Hd; try discriminate.
-  destruct (mem_nat w (map fst (seen s)) || (next_w s <=? w)) eqn:Hm; [|discriminate].
+  intros s r c f s' evs HI HR H.
+  destruct (upmsg_cases _ _ _ _ _ H) as (x & Hc & Hrl & Hcl & Hd & Hcase).
   drel HR.
-  destruct (lookup w (c_subs x)) as [i|] eqn:Hl.
+  destruct (spec_class (c_proto x) f) as [w k| |] eqn:Hsc.
+  2:{ (* no subscription concerned *)
+      destruct Hcase as [-> ->]. simpl. rewrite scan1_soft by (auto; exact I). simpl. rewrite Hsc.
+      eexists; split; [reflexivity|]. apply rel_clr; auto. }
+  2:{ (* protocol violation: the read fails, the socket is lost *)
+      destruct Hcase as [-> ->].
+      assert (E : scan r [OUp c (c_proto x) f; OSrvClosed c] = Some (closed_reg r c)).
+      { simpl. rewrite scan1_soft by (auto; exact I). simpl. rewrite Hsc.
+        rewrite scan1_soft by exact I. reflexivity. }
+      rewrite E. eexists; split; [reflexivity|].
+      eapply rel_kill; eauto; unfold c_kill; simpl; try rewrite Hd; congruence. }
+  destruct Hcase as [Hm [(i & Hl & -> & ->)|(Hl & -> & ->)]].
   - (* delivered *)
     pose proof (lookup_In _ _ _ Hl) as Hin.
     assert (Hseen : In w (map fst (seen s))).
@@ -476,8 +486,8 @@ Proof.
     { pose proof (find_reg_In _ _ _ _ Hf) as Hin'.
       destruct (Hr1 _ _ _ Hin') as (y1 & _ & _ & Hs1 & _). destruct (Hr1 _ _ _ Hreg) as (y2 & _ & _ & Hs2 & _).
       eapply (I4 _ HI); eauto. }
-    subst i'. inversion H; subst; clear H.
-    simpl. rewrite scan1_soft by (auto; exact I). simpl. rewrite Hf. unfold scan1. simpl.
+    subst i'.
+    simpl. rewrite scan1_soft by (auto; exact I). simpl. rewrite Hsc, Hf. unfold scan1. simpl.
     rewrite Nat.eqb_refl, kind_eqb_refl. simpl.
     eexists; split; [reflexivity|].
     destruct (terminal k) eqn:Ht.
@@ -505,7 +515,7 @@ Proof.
         inversion Hy; subst. simpl in Hr. inversion Hr; subst. auto.
     + change (Rel s (clr r)). apply rel_clr; auto.
   - (* nobody registered under w on c (any more): dropped *)
-    inversion H; subst; clear H. simpl. rewrite scan1_soft by (auto; exact I). simpl.
+    simpl. rewrite scan1_soft by (auto; exact I). simpl. rewrite Hsc.
     destruct (find_reg c w (r_reg r)) as [i'|] eqn:Hf.
     + eexists; split; [reflexivity|]. apply rel_exp_soft; [apply rel_clr; auto|].
       pose proof (find_reg_In _ _ _ _ Hf) as Hin'.
@@ -520,8 +530,6 @@ Proof.
   intros e l r Hs Hq. simpl. rewrite scan1_soft; auto; [|destruct e; simpl in *; tauto].
   replace (scan_plain (clr r) e) with (Some (clr r)); auto. destruct e; simpl in *; tauto || reflexivity.
 Qed.
-Lemma soft_clr : forall r, soft (clr r).
-Proof. intros; unfold soft; simpl; auto. Qed.
 
 Lemma scan_closed1 : forall r c, soft r -> scan r [OSrvClosed c] = Some (closed_reg r c).
 Proof. intros. apply (scan_closed [] r c); auto. Qed.
